@@ -571,6 +571,13 @@ func (fx *FuncVC) execAlloc(fr *frame, x *ssa.Alloc) {
 			return
 		}
 	}
+	if x.Heap && allocEscapesAsValue(x) {
+		if _, isStruct := under(elem).(*types.Struct); isStruct {
+			// &T{...} / new(T) whose pointer is stored, passed or returned: a fresh heap object
+			fr.regs[x] = fx.allocObj(elem, nil, "new_"+x.Comment)
+			return
+		}
+	}
 	cell := fx.cellFor(x, x.Comment, elem)
 	fr.cells[x] = cell
 	fx.st.cells[cell] = fx.zeroVal(elem)
